@@ -27,6 +27,13 @@ m = {
                           'tf.* rebound to operator contracts over exact reals, sidecar pre/postconditions, '
                           'callees replaced by their contracts, obligations discharged by z3 then cvc5, '
                           'counterexamples replayed on real TensorFlow',
+    }, {
+        'name': 'lean-counting-lemmas',
+        'path': 'lean/',
+        'serves_properties': ['C17'],
+        'kind_free_text': 'Lean 4 / Mathlib proofs of the counting lemmas used by the ghost-state argument of C17 (usage counts '
+                          'under a bijective relabelling and under k copies of a shuffled list); re-checked by `lake env lean` on '
+                          'every run of ./check C17',
     }],
     'checks': [],
     'not_applicable': NOT_APPLICABLE,
